@@ -127,6 +127,93 @@ def eval_table(rec):
     return out
 
 
+def barrier_clip(v):
+    """The documented extreme barrier: NaN -> 2**100, then clip to
+    [-2**100, 2**100]."""
+    v = np.array(v, dtype=float, copy=True)
+    v[np.isnan(v)] = BARRIER_REF
+    return np.clip(v, -BARRIER_REF, BARRIER_REF)
+
+
+def o_barrier(rec, table=None):
+    """What Problem.__call__ hands to the models for an evaluation is the
+    barrier-clipped image of what the user functions returned in that very
+    evaluation: objective compared exactly; constraint values compared as
+    multisets of the transformed slacks (lb - c, c - ub, c - mid) so that the
+    internal ordering does not matter."""
+    b = rec.built
+    out = []
+    info = {"barrier_checks": 0, "barrier_active": 0}
+    table = table if table is not None else eval_table(rec)
+    by_i = {r["i"]: r for r in table}
+    for ev in rec.run.evals:
+        r = by_i.get(ev["i"])
+        if ev["ret"] is None or r is None or not r["ok"]:
+            continue
+        fun, cub, ceq = ev["ret"]
+        info["barrier_checks"] += 1
+        if b.fun is not None:
+            raw = r["f"]
+            want = float(barrier_clip([raw])[0])
+            if not (math.isfinite(raw) and abs(raw) < BARRIER_REF):
+                info["barrier_active"] += 1
+            if not feq(fun, want):
+                out.append(V("barrier_objective",
+                             f"evaluation {ev['i'] + 1}: the objective "
+                             f"returned {raw!r}; the solver works with "
+                             f"{fun!r}, expected {want!r}",
+                             mechanism="barrier:obj"))
+                break
+        # constraints: values actually returned in THIS round (no cache)
+        sl = r["slice"]
+        vals = []
+        complete = True
+        for j, nc in enumerate(b.nl):
+            cj = [e for e in sl if e["t"] == "con" and e["j"] == j
+                  and e.get("done")]
+            if not cj:
+                complete = False
+                break
+            vals.append((nc, np.atleast_1d(np.asarray(cj[-1]["v"], float))))
+        if not complete or not b.nl:
+            continue
+        w_ub, w_eq = [], []
+        for nc, v in vals:
+            lo = np.broadcast_to(np.asarray(nc["lb"], float), v.shape)
+            hi = np.broadcast_to(np.asarray(nc["ub"], float), v.shape)
+            tol = truth.eq_tol(lo, hi)
+            for i in range(v.size):
+                if np.isfinite(lo[i]) and np.isfinite(hi[i]) and \
+                        abs(hi[i] - lo[i]) <= tol[i]:
+                    w_eq.append(v[i] - 0.5 * (lo[i] + hi[i]))
+                    continue
+                if np.isfinite(lo[i]):
+                    w_ub.append(lo[i] - v[i])
+                if np.isfinite(hi[i]):
+                    w_ub.append(v[i] - hi[i])
+        for name, got, want in (("inequality", cub, w_ub),
+                                ("equality", ceq, w_eq)):
+            want = np.sort(barrier_clip(want)) if len(want) else np.zeros(0)
+            got = np.sort(np.asarray(got, float))
+            if np.any(~np.isfinite(np.asarray(
+                    [x for _, v in vals for x in v]))):
+                info["barrier_active"] += 1
+            if got.shape != want.shape:
+                continue          # C17 judges the translation itself
+            bad = ~((got == want) | (np.abs(got - want) <= 4 * EPS * np.maximum(
+                np.abs(got), np.abs(want))))
+            if np.any(bad):
+                k = int(np.argmax(bad))
+                out.append(V("barrier_constraint",
+                             f"evaluation {ev['i'] + 1}: {name} slacks the "
+                             f"solver works with {got.tolist()} differ from "
+                             f"the barrier-clipped image {want.tolist()} of "
+                             f"the user's values", mechanism="barrier:con",
+                             index=k))
+                return out, info
+    return out, info
+
+
 # ======================================================================= C01
 def o_c01(rec):
     b = rec.built
